@@ -81,8 +81,10 @@ func helpersCalledIn(p *Program, f *FuncInfo, n ast.Node) []*FuncInfo {
 // zeroSite is one statement that zeroes an unmarshal destination.
 type zeroSite struct {
 	pos    token.Pos
-	scalar bool   // a typed scalar setter (SetBool/SetInt/SetUint/SetFloat/SetString): the destination cannot be nil-able
-	flags  uint64 // option flags read by the conditions around it (inside body)
+	scalar bool      // a typed scalar setter (SetBool/SetInt/SetUint/SetFloat/SetString): the destination cannot be nil-able
+	flags  uint64    // option flags read by the conditions around it (inside body)
+	conds  []condCtx // those conditions
+	info   *types.Info
 }
 
 func zeroesIn(p *Program, f *FuncInfo, body ast.Node) (found bool, guardFlags uint64) {
@@ -95,10 +97,13 @@ func zeroesIn(p *Program, f *FuncInfo, body ast.Node) (found bool, guardFlags ui
 
 func zeroSitesIn(p *Program, f *FuncInfo, body ast.Node) (out []zeroSite) {
 	info := f.Info()
+	var lastConds []condCtx
 	guards := func(x ast.Node) (fl uint64) {
+		lastConds = nil
 		for _, cc := range enclosingConds(p, f, x) {
 			if within(body, cc.cond) {
 				fl |= flagsRead(info, cc.cond)
+				lastConds = append(lastConds, cc)
 			}
 		}
 		return
@@ -136,7 +141,8 @@ func zeroSitesIn(p *Program, f *FuncInfo, body ast.Node) (out []zeroSite) {
 				}
 			}
 			if isZero {
-				out = append(out, zeroSite{x.Pos(), scalar, guards(x)})
+				fl := guards(x)
+				out = append(out, zeroSite{x.Pos(), scalar, fl, lastConds, info})
 			}
 		case *ast.AssignStmt:
 			// *p = 0 / *p = ""
@@ -150,7 +156,8 @@ func zeroSitesIn(p *Program, f *FuncInfo, body ast.Node) (out []zeroSite) {
 						isZ = true
 					}
 					if isZ {
-						out = append(out, zeroSite{x.Pos(), false, guards(x)})
+						fl := guards(x)
+						out = append(out, zeroSite{x.Pos(), false, fl, lastConds, info})
 					}
 				}
 			}
@@ -258,6 +265,51 @@ func ruleNULL1(c *Ctx) {
 			sites := zeroSitesIn(p, f, b.body)
 			for _, g := range helpersCalledIn(p, f, b.body) {
 				sites = append(sites, zeroSitesIn(p, g, g.Body())...)
+			}
+			// the option can only suppress the zeroing, never enable it: evaluating the conditions around the zeroing
+			// statements with MergeWithLegacySemantics on must not make zeroing more certain than with it off
+			if len(sites) > 0 && !strings.HasPrefix(f.Name, "json.makeInvalidArshaler") {
+				rank := func(t tri) int {
+					switch t {
+					case triYes:
+						return 2
+					case triNo:
+						return 0
+					}
+					return 1
+				}
+				best := func(mergeOn bool) int {
+					b := 0
+					for _, z := range sites {
+						r := 2
+						for _, cc := range z.conds {
+							t := boolEval(cc.cond, func(e ast.Expr) (bool, bool) {
+								if v, ok := IsFlagGet(z.info, e); ok && v&^1 == merge {
+									return mergeOn, true
+								}
+								return false, false
+							})
+							if !cc.then {
+								switch t {
+								case triYes:
+									t = triNo
+								case triNo:
+									t = triYes
+								}
+							}
+							if rank(t) < r {
+								r = rank(t)
+							}
+						}
+						if r > b {
+							b = r
+						}
+					}
+					return b
+				}
+				on, off := best(true), best(false)
+				c.Oblige(fmt.Sprintf("merge-only-suppresses-zeroing:%s#%d", f.Name, i+1), b.pos, on <= off,
+					"the null branch is more certain to zero the destination with MergeWithLegacySemantics on than with it off: the option test is inverted, so under the default v2 semantics a null may leave the old value in place")
 			}
 			nScalar, unguarded := 0, token.NoPos
 			for _, z := range sites {
@@ -870,7 +922,7 @@ func ruleANYPATH1(c *Ctx) {
 			if as, ok := ifs.Init.(*ast.AssignStmt); ok && len(as.Rhs) == 1 {
 				if _, isIdx := ast.Unparen(as.Rhs[0]).(*ast.IndexExpr); isIdx {
 					for _, call := range findAll[*ast.CallExpr](ifs.Body) {
-						if FuncCall(info, call, "json", "newDuplicateNameError") && len(findAll[*ast.ReturnStmt](ifs.Body)) > 0 {
+						if (FuncCall(info, call, "json", "newDuplicateNameError") || wrapsCall(p, f, call, "json", "newDuplicateNameError")) && len(findAll[*ast.ReturnStmt](ifs.Body)) > 0 {
 							okDup = true
 						}
 					}
